@@ -47,11 +47,12 @@ MANIFEST = {
             'Chain/Par2/Ser2/Hybrid2 are translated from the source (fail-closed); the node threading of Ser/Par._net_make is '
             'executed symbolically from the source for each argument count 2..7 (2..11 thorough) and proved equal to the emitters the '
             'netlist theorem is about; control flow (fall-backs, _combine, simplify) is a hand model evaluated inside Coq against '
-            'the real code on every run.',
+            'the real code on every run - over Qc at a rational s0 for transient/s-domain sources and over the Gaussian rationals at '
+            's = j omega (phasor domain) for ac sources.',
     'note': 'Trusted: Coq kernel/vm_compute; tools/tr_oneport.py, tr_sections.py, tr_twoport.py + statement templates in '
             'checks/c07gen.py; specifications coq/theory/OnePort.v (sem), Sections.v, TwoPort.v, Circuit.v; hand models '
             'props/C07model.v (validated by correspondence); tools/tr_netmake.py (symbolic execution of _net_make); signal transforms '
-            'of source classes are opaque (C09/C14); dc/ac/noise source kinds, the NetlistOpsMixin parameter probes and the physical '
+            'of source classes are opaque (C09/C14); dc and noise source kinds, the NetlistOpsMixin parameter probes and the physical '
             'semantics of emitted TWO-port netlists are compared by the exact oracle only (no theorem).',
     'technique': 'Coq proof by induction over trees/lists on a model translated from source + in-Coq correspondence evaluation + exact three-route search oracle',
 }
@@ -371,21 +372,34 @@ def qi_(re_, im_=0):
     return '(QI %s %s)' % (q(re_), q(im_))
 
 
-def coq_tree_c(t, order_params):
+def eval_jw(expr, w):
+    """value of a rational expression in s at s = j w, exact (re, im)"""
+    import sympy as sp
+    sv = sp.Symbol('s')
+    v = sp.simplify(sp.sympify(expr, locals={'s': sv}).subs(sv, sp.I * sp.Rational(w.numerator, w.denominator)))
+    re_, im_ = sp.nsimplify(sp.re(v)), sp.nsimplify(sp.im(v))
+    if not (re_.is_Rational and im_.is_Rational):
+        raise ValueError('not a Gaussian rational')
+    return Fraction(int(re_.p), int(re_.q)), Fraction(int(im_.p), int(im_.q))
+
+
+def coq_tree_c(t, order_params, w=None):
     """the tree over the Gaussian rationals for the phasor evaluation: real parameters, ac sources by their amplitude"""
     if isinstance(t, dict):
         ps = order_params[t['cls']]
         vals = list(t['coq'])
         if t['cls'] in ('Vac', 'Iac'):
             vals[0] = t['amp']
+        if t['cls'] in ('Y', 'Z'):
+            vals[0] = eval_jw(t['args'][0], w)
         out = []
         for (nm, ty), v in zip(ps, vals + [None] * (len(ps) - len(vals))):
             if ty == 'K':
-                out.append(qi_(v if v is not None else 0))
+                out.append(qi_(*v) if isinstance(v, tuple) else qi_(v if v is not None else 0))
             else:
                 out.append('None' if v is None else '(Some %s)' % qi_(v))
         return '(Leaf (L_%s (K:=QcIF) %s))' % (t['cls'], ' '.join(out))
-    return '(%s [%s])' % (t[0], '; '.join(coq_tree_c(c, order_params) for c in t[1]))
+    return '(%s [%s])' % (t[0], '; '.join(coq_tree_c(c, order_params, w) for c in t[1]))
 
 
 def phasor_from_laplace(F0, s0, F1, s1, w):
@@ -1087,6 +1101,10 @@ def run(tier='quick', replay=None):
                             key = 'ParSer.%s:initial-conditions-ignored-by-has_independent_source' % qn
                         elif qn in ('Z', 'Y') and tb[qn] is not None and a == tb[qn] and any(l.get('ic') for l in leaves_of(t)):
                             key = 'cct.%s:initial-conditions-not-ignored' % {'Z': 'impedance', 'Y': 'admittance'}[qn]
+                        if key is None and qn in ('Voc', 'Isc') and not all_s and any(l['cls'] in ('L', 'C') and len(l['args']) > 1 for l in leaves_of(t)):
+                            # a dc/ac source in a branch without initial conditions is solved in steady state by the branch's own
+                            # circuit, while the netlist of the whole network is an initial value problem
+                            key = '%s:branches-not-solved-as-the-initial-value-problem-of-the-network' % {'Voc': 'Ser.Voc', 'Isc': 'Par.Isc'}[qn]
                         if key is None:
                             key = 'oneport.%s:%s' % (qn, re.sub(r'[^A-Za-z(),*]', '', shape(t))[:50])
                         res.counterexamples.append({'key': key, 'case': c, 'quantity': qn, 'algebra': fs(a), 'netlist': fs(n_),
@@ -1106,11 +1124,10 @@ def run(tier='quick', replay=None):
                             res.counterexamples.append({'key': key, 'case': c, 'quantity': qn, 'before': fs(a), 'after': fs(b_),
                                                         'simplified': sp_.get('repr'), 'shape': shape(t)})
                 # phasor-domain correspondence: ac sources of one angular frequency, model over Q(i) at s = j w
-                if model1 and prof == 'ac' and isinstance(r.get('ac'), dict) and all(l['cls'] in ('Vac', 'Iac') for l in leaves_of(t) if l.get('src')) \
-                        and all('Y' != 'x' for _ in [0]):
+                if model1 and prof == 'ac' and isinstance(r.get('ac'), dict) and all(l['cls'] in ('Vac', 'Iac') for l in leaves_of(t) if l.get('src')):
                     try:
                         w_, s1 = m['acw'], m['s1']
-                        tdefc = 'Definition tc_%d : tree (lf QcIF) := %s.' % (ci, coq_tree_c(t, order_params))
+                        tdefc = 'Definition tc_%d : tree (lf QcIF) := %s.' % (ci, coq_tree_c(t, order_params, w_))
                         ldc = '(LDc (QI 0%%Qc %s))' % q(w_)
                         firstc = True
                         for qn, fn_ in (('Z', 'Zt %s' % ldc), ('Y', 'Yt %s' % ldc)):
@@ -1343,7 +1360,7 @@ def run(tier='quick', replay=None):
                             defs.append(d_)
                 # definitions may have been emitted with an item that was dropped: make sure each used tree is defined
                 for k in set(re.findall(r'\btc_(\d+)\b', ' '.join(it[2] for it in sh))) - set(re.findall(r'Definition tc_(\d+)', ' '.join(defs))):
-                    defs.append('Definition tc_%s : tree (lf QcIF) := %s.' % (k, coq_tree_c(meta[int(k)]['tree'], order_params)))
+                    defs.append('Definition tc_%s : tree (lf QcIF) := %s.' % (k, coq_tree_c(meta[int(k)]['tree'], order_params, meta[int(k)]['acw'])))
                 need = set(re.findall(r'\bt_(\d+)\b', ' '.join(it[2] for it in sh)))
                 have = set(re.findall(r'Definition t_(\d+)', ' '.join(defs)))
                 for k in need - have:
@@ -1365,7 +1382,8 @@ def run(tier='quick', replay=None):
             lab, ci = labels[g]
             res.disagreements.append({'check': lab, 'case': cases[ci], 'lcapy': wres[ci]})
         res.rule = ('one-ports: random admissible trees (depth <= 4, <= 6 leaves) over R NR G NG L C (with/without initial conditions) CPE Y Z '
-                    'Xtal FerriteBead and sV V Vstep v / sI I Istep i (model + oracle, evaluated at a rational s0), Vdc Idc Vac Iac and mixtures '
+                    'Xtal FerriteBead and sV V Vstep v / sI I Istep i (model + oracle, evaluated at a rational s0), Vac Iac of one angular frequency '
+                    '(oracle + phasor-domain model over Q(i): the phasor is recovered exactly from two values of the Laplace transform), Vdc Idc and mixtures '
                     '(oracle only: algebra vs netlist through the Laplace transform of the result), one tree per _combine rule, the DESIGN F9 corpus; '
                     'two-ports: every section class, chains, Par2, Ser2/Hybrid2/InverseHybrid2 (second argument a shunt so that the port '
                     'condition holds), every section constructor of AMatrix/BMatrix/ZMatrix; source vectors: each of the six two-port model '
